@@ -485,7 +485,7 @@ def bin_event(case, argv, asm_error, exe, wdir, timeout=20):
     before = listing()
     args = render(argv)
     try:
-        p = subprocess.run([exe] + args[1:], cwd=wdir, stdout=subprocess.PIPE, stderr=subprocess.PIPE, timeout=timeout)
+        p = common.patient_run([exe] + args[1:], timeout, cwd=wdir, stdout=subprocess.PIPE, stderr=subprocess.PIPE)
         code, sig = (p.returncode, 0) if p.returncode >= 0 else (0, -p.returncode)
         out, err = p.stdout.decode("utf-8", "replace"), p.stderr.decode("utf-8", "replace")
     except subprocess.TimeoutExpired:
